@@ -93,6 +93,8 @@ def build(chk):
         _, resH, _ = biv.run_method(fam, 'partial_derivative', open_at_one=True)
         _, resD, _ = biv.run_method(fam, 'probability_density', open_at_one=True)
         _, resL, _ = biv.run_method(fam, 'log_probability_density', open_at_one=True)
+        biv.crosscheck(chk, fam, 'partial_derivative', resH)
+        biv.crosscheck(chk, fam, 'probability_density', resD)
         for tag, res in (('cdf', resC), ('h', resH), ('pdf', resD), ('logpdf', resL)):
             bad = [r for r in res if r.outcome in ('unsupported',)]
             for r in bad:
